@@ -288,8 +288,10 @@ class MergedSequences(Generic[_ValueT]):
     """Slices the merged sequences."""
     if slice_.step is not None:
       raise NotImplementedError(f'step is not supported, got {slice_}')
-    start = self._index(slice_.start or 0)
-    stop = self._index(len(self) if slice_.stop is None else slice_.stop)
+    # Bounds beyond either end are clamped as for a list.
+    start_index, stop_index, _ = slice_.indices(len(self))
+    start = self._index(start_index)
+    stop = self._index(stop_index)
     if start.seq_idx == len(self._sequences) or start.seq_idx > stop.seq_idx:
       return iter(())
     if start.seq_idx == stop.seq_idx:
